@@ -13,6 +13,11 @@ package dastard
 // the run directory must hold one file per (stream, type) that wrote, and every LJH22 / LJH3 / OFF
 // header is decoded with the independent decoders and compared with the reported identity.
 // Every source type is also prepared twice on the same object without a Stop in between (family D).
+// Lancero, sampled (family E and a twicer of family D): the cards are scripted lancero.Lanceroer values and
+// the source is started the way Start does it - the real Configure (rows, line period, NSAMP from a
+// cringeGlobals file), the real Sample with sampleCard on each active card (it paces itself on the card's
+// time stamps, which the script supplies), PrepareChannels, PrepareRun - so the number of data streams and
+// the per-card geometry are what the real Sample finds in the cards' streams; cards differ in their columns.
 
 import (
 	"fmt"
@@ -25,6 +30,7 @@ import (
 	"time"
 
 	"github.com/usnistgov/dastard/internal/vexp"
+	"github.com/usnistgov/dastard/lancero"
 	"github.com/usnistgov/dastard/packets"
 	"gonum.org/v1/gonum/mat"
 )
@@ -524,6 +530,10 @@ func v19LanceroReject(err error) string {
 type v19LanceroCase struct {
 	cards []v19Card
 	first int
+	// sampled: the cards are scripted lancero.Lanceroer values that stream frames of their geometry, and the
+	// source gets its stream count and per-card geometry from the real Configure and Sample (family E);
+	// otherwise the geometry is written into the devices and LanceroSource.nchan directly (family A)
+	sampled bool
 }
 
 func (c v19LanceroCase) id() string {
@@ -531,7 +541,171 @@ func (c v19LanceroCase) id() string {
 	for _, k := range c.cards {
 		s = append(s, fmt.Sprintf("%d:%dx%d", k.devnum, k.ncols, k.nrows))
 	}
+	if c.sampled {
+		return fmt.Sprintf("lancero-sampled/cards=%s/first=%d", strings.Join(s, ","), c.first)
+	}
 	return fmt.Sprintf("lancero/cards=%s/first=%d", strings.Join(s, ","), c.first)
+}
+
+// v19SampCard is a scripted Lancero card for the sampling phase of a Start (sampleCard): between
+// StartCollector and StopCollector it streams whole frames of ncols x nrows words (error, feedback; the
+// frame bit set in the words of row 0), beginning one word into a frame, at 20 frames per second of the
+// CARD's time stamps. sampleCard measures its 200 ms on those time stamps, not on the wall clock, so a
+// session is 5 frames in three driver reads: an empty one (sampleCard ignores the data of its first read),
+// one that ends two words after the second frame start, and the rest.
+type v19SampCard struct {
+	ncols, nrows int
+	stream       []byte
+	avail        []int
+	call         int
+	released     int
+}
+
+const v19SampFrameRate = 20 // frames per second of the card's time stamps
+const v19SampFrames = 5     // frames per sampling session (250 ms)
+
+func v19NewSampCard(ncols, nrows int) *v19SampCard {
+	c := &v19SampCard{}
+	c.setGeometry(ncols, nrows)
+	return c
+}
+
+// setGeometry makes the SAME card object stream another geometry from the next sampling session on.
+func (c *v19SampCard) setGeometry(ncols, nrows int) {
+	c.ncols, c.nrows = ncols, nrows
+	words := ncols * nrows
+	c.stream = c.stream[:0]
+	for w := 1; w <= v19SampFrames*words; w++ { // word w of the stream is word w%words of frame w/words
+		f, r, col := w/words, (w%words)/ncols, (w%words)%ncols
+		e := uint16(int16((f*31+r*7+col*3)%200 - 100))
+		fb := uint16(0x1000 + (f*16+r*4+col)<<2)
+		if r == 0 {
+			fb |= 1
+		}
+		c.stream = append(c.stream, byte(e), byte(e>>8), byte(fb), byte(fb>>8))
+	}
+	fs := 4 * words
+	c.avail = []int{0, 2*fs + 4, v19SampFrames * fs}
+	c.call, c.released = 0, 0
+}
+
+// String keeps spew.Sdump(card) in sampleCard short.
+func (c *v19SampCard) String() string { return fmt.Sprintf("v19SampCard(%dx%d)", c.ncols, c.nrows) }
+
+func (c *v19SampCard) ChangeRingBuffer(int, int) error                { return nil }
+func (c *v19SampCard) Close() error                                   { return nil }
+func (c *v19SampCard) StartAdapter(int, int) error                    { return nil }
+func (c *v19SampCard) StopAdapter() error                             { return nil }
+func (c *v19SampCard) CollectorConfigure(int, int, uint32, int) error { return nil }
+func (c *v19SampCard) StartCollector(bool) error                      { c.call, c.released = 0, 0; return nil }
+func (c *v19SampCard) StopCollector() error                           { return nil }
+func (c *v19SampCard) InspectAdapter() uint32                         { return 0 }
+func (c *v19SampCard) Wait() (time.Time, time.Duration, error)        { return vT0, 0, nil }
+func (c *v19SampCard) ReleaseBytes(n int) error {
+	c.released += n
+	return nil
+}
+func (c *v19SampCard) AvailableBuffer() ([]byte, time.Time, error) {
+	if c.call >= len(c.avail) {
+		// the session is over after 250 ms of card time; a sampler that still reads gets an error, not an endless loop
+		return nil, time.Time{}, fmt.Errorf("scripted card: read %d of a sampling session of %d reads", c.call+1, len(c.avail))
+	}
+	a := c.avail[c.call]
+	c.call++
+	if a < c.released {
+		a = c.released
+	}
+	fs := 4 * c.ncols * c.nrows
+	t := vT0.Add(time.Duration(a) * (time.Second / v19SampFrameRate) / time.Duration(fs))
+	return c.stream[c.released:a], t, nil
+}
+
+var _ lancero.Lanceroer = (*v19SampCard)(nil)
+
+// v19Globals writes the cringeGlobals file of this process (number of rows = sequence length, the line period
+// that goes with v19SampFrameRate, NSAMP 1) and points Configure at it; the returned function undoes that.
+func v19Globals(seqln int) func() {
+	saved := cringeGlobalsPath
+	cringeGlobalsPath = filepath.Join(os.TempDir(), fmt.Sprintf("v19_cringeGlobals_%d.json", os.Getpid()))
+	lsync := int(125e6/(v19SampFrameRate*float64(seqln)) + 0.5)
+	globals := fmt.Sprintf(`{"SETT":1,"seqln":%d,"lsync":%d,"testpattern":0,"propagationdelay":1,"NSAMP":1,"carddelay":1,"XPT":0}`, seqln, lsync)
+	if err := os.WriteFile(cringeGlobalsPath, []byte(globals), 0644); err != nil {
+		panic(err)
+	}
+	path := cringeGlobalsPath
+	return func() {
+		os.Remove(path)
+		cringeGlobalsPath = saved
+	}
+}
+
+// v19SampledStart does on ls what Start does before PrepareChannels: the real Configure (active cards in the
+// order of `cards`, separations, FirstRow; rows of every card = the sequence length in cringeGlobals = the rows
+// of the first card) and the real Sample. The devices of ls must carry v19SampCard cards.
+func v19SampledStart(x *vexp.X, ls *LanceroSource, cards []v19Card, first, sepCols, sepCards int) (step string, err error) {
+	defer v19Globals(cards[0].nrows)()
+	var active []int
+	for _, c := range cards {
+		active = append(active, c.devnum)
+		ls.devices[c.devnum].card.(*v19SampCard).setGeometry(c.ncols, c.nrows)
+	}
+	x.Steps++
+	if err := ls.Configure(&LanceroSourceConfig{FiberMask: 0xffff, CardDelay: []int{1}, ActiveCards: active,
+		FirstRow: first, ChanSepColumns: sepCols, ChanSepCards: sepCards}); err != nil {
+		return "Configure", err
+	}
+	x.Steps++
+	if err := ls.Sample(); err != nil {
+		return "Sample", err
+	}
+	return "", nil
+}
+
+// v19SampledSource is a LanceroSource as NewLanceroSource builds it on a machine with the given card numbers.
+func v19SampledSource(devnums []int) *LanceroSource {
+	ls := &LanceroSource{}
+	ls.name = "Lancero"
+	ls.nsamp = 1
+	ls.channelsPerPixel = 2
+	ls.devices = map[int]*LanceroDevice{}
+	for _, d := range devnums {
+		ls.devices[d] = &LanceroDevice{devnum: d, card: v19NewSampCard(1, 2)}
+		ls.ncards++
+	}
+	return ls
+}
+
+// v19SampledPrepareChannels runs the real PrepareChannels on a source that the real Sample has just accepted.
+// A configuration that PrepareChannels rejects is rejected by Start, and nothing is demanded of it. Otherwise the
+// number of data streams Sample reported must be the number the active cards deliver: PrepareChannels sizes the
+// identity tables by that count and fills them by walking the cards' geometry, so too small a count makes it
+// panic (reported as what it is: a wrong stream count), too large a count leaves nameless streams behind.
+func v19SampledPrepareChannels(ls *LanceroSource, nstreams int) (err error) {
+	defer func() {
+		e := recover()
+		if e == nil && err != nil {
+			return // rejected
+		}
+		if ls.Nchan() != nstreams {
+			msg := fmt.Sprintf("Sample accepted the cards and reports %d data streams, but the active cards deliver %d (2 per column and row of every card)", ls.Nchan(), nstreams)
+			if e != nil {
+				msg += fmt.Sprintf("; PrepareChannels panics: %v", e)
+			}
+			err = v19PrepViolation{class: "lancero-sampled-stream-count", msg: msg}
+		} else if e != nil {
+			class, text := vexp.PanicInfo(e)
+			err = v19PrepViolation{class: class, msg: "PrepareChannels: " + text}
+		}
+	}()
+	return ls.PrepareChannels()
+}
+
+func v19StreamsOf(cards []v19Card) int {
+	n := 0
+	for _, c := range cards {
+		n += 2 * c.ncols * c.nrows
+	}
+	return n
 }
 
 func v19LanceroBody(r *vexp.Runner, lc v19LanceroCase, fileLimit int) func(x *vexp.X) vexp.Result {
@@ -557,23 +731,48 @@ func v19LanceroBody(r *vexp.Runner, lc v19LanceroCase, fileLimit int) func(x *ve
 		sepCards := []int{-1, 0, span - 1, span, span + 10}[x.Choose(5)]
 		x.Logf("Lancero cards (devnum:cols x rows) %s ; FirstRow=%d ChanSepColumns=%d ChanSepCards=%d", lc.id(), lc.first, sepCols, sepCards)
 
-		ls := &LanceroSource{}
-		ls.name = "Lancero"
-		ls.sampleRate = 1000
-		ls.samplePeriod = vPeriod
-		ls.nchan = nstreams
-		for _, c := range lc.cards {
-			ls.active = append(ls.active, &LanceroDevice{devnum: c.devnum, ncols: c.ncols, nrows: c.nrows})
+		var ls *LanceroSource
+		if lc.sampled {
+			var devnums []int
+			for _, c := range lc.cards {
+				devnums = append(devnums, c.devnum)
+			}
+			ls = v19SampledSource(devnums)
+			if step, err := v19SampledStart(x, ls, lc.cards, lc.first, sepCols, sepCards); err != nil {
+				x.Logf("%s rejects: %v", step, err)
+				return vexp.Result{Outcome: "lancero-sampled|rejected-by-" + step}
+			}
+			x.Logf("Configure and Sample accept: Nchan()=%d, sample rate %g", ls.Nchan(), ls.sampleRate)
+		} else {
+			ls = &LanceroSource{}
+			ls.name = "Lancero"
+			ls.sampleRate = 1000
+			ls.samplePeriod = vPeriod
+			ls.nchan = nstreams
+			for _, c := range lc.cards {
+				ls.active = append(ls.active, &LanceroDevice{devnum: c.devnum, ncols: c.ncols, nrows: c.nrows})
+			}
+			ls.firstRowChanNum, ls.chanSepColumns, ls.chanSepCards = lc.first, sepCols, sepCards
 		}
-		ls.firstRowChanNum, ls.chanSepColumns, ls.chanSepCards = lc.first, sepCols, sepCards
 		_, collideDev := v19Literal(lc.cards, lc.first, sepCols, sepCards, true)
 		litPos, collidePos := v19Literal(lc.cards, lc.first, sepCols, sepCards, false)
 		x.Steps++
-		err := ls.PrepareChannels()
+		var err error
+		if lc.sampled {
+			err = v19SampledPrepareChannels(ls, nstreams)
+			if pv, ok := err.(v19PrepViolation); ok {
+				return vexp.Result{Nontrivial: true, Class: pv.class, Violation: lc.id() + fmt.Sprintf(" sepCols=%d sepCards=%d: ", sepCols, sepCards) + pv.msg}
+			}
+		} else {
+			err = ls.PrepareChannels()
+		}
 		if err != nil {
 			x.Logf("PrepareChannels rejects: %v (literal scheme collides: by device number %v, by position %v)", err, collideDev, collidePos)
 			if !collideDev && !collidePos && sepCols >= 0 && sepCards >= 0 {
 				r.Count("lancero_rejected_although_literal_scheme_is_collision_free", 1)
+			}
+			if lc.sampled {
+				return vexp.Result{Outcome: "lancero-sampled|rejected:" + v19LanceroReject(err)}
 			}
 			return vexp.Result{Outcome: "lancero|rejected:" + v19LanceroReject(err)}
 		}
@@ -600,6 +799,9 @@ func v19LanceroBody(r *vexp.Runner, lc v19LanceroCase, fileLimit int) func(x *ve
 			}
 		}
 		res.Outcome = v19Outcome("lancero", ds)
+		if lc.sampled {
+			res.Outcome = v19Outcome("lancero-sampled", ds)
+		}
 		if v, c := v19Identity(x, ds, truth); v != "" {
 			res.Violation, res.Class = lc.id()+fmt.Sprintf(" sepCols=%d sepCards=%d: ", sepCols, sepCards)+v, "lancero-"+c
 			return res
@@ -632,12 +834,18 @@ func v19LanceroBody(r *vexp.Runner, lc v19LanceroCase, fileLimit int) func(x *ve
 			}
 		}
 		if nstreams <= fileLimit {
-			mask, projSel := v19ChooseFiles(x, nstreams)
+			mask, projSel := 7, 0 // sampled: all three file types at once (the file-type sets are enumerated by family A on the same tables)
+			if !lc.sampled {
+				mask, projSel = v19ChooseFiles(x, nstreams)
+			}
 			if v, c := v19Files(x, ds, pub, mask, projSel); v != "" {
 				res.Violation, res.Class = lc.id()+fmt.Sprintf(" sepCols=%d sepCards=%d: ", sepCols, sepCards)+v, c
 				return res
 			}
 			r.Count("executions_with_files", 1)
+		}
+		if lc.sampled {
+			r.Count("executions_lancero_sampled_accepted", 1)
 		}
 		return res
 	}
@@ -856,6 +1064,11 @@ type v19Prep interface {
 	truth(cfg int) []v19Truth
 }
 
+// v19PrepViolation is returned by an apply that saw the property violated before PrepareChannels could run.
+type v19PrepViolation struct{ class, msg string }
+
+func (v v19PrepViolation) Error() string { return v.msg }
+
 type v19Twicer struct {
 	kind  string
 	menu  []string // labels of the configuration menu
@@ -904,9 +1117,18 @@ func v19TwiceRun(r *vexp.Runner, x *vexp.X, tw v19Twicer, a, b int, fileLimit in
 	} else {
 		x.Logf("preparation A accepted, the Start fails after PrepareChannels; groups now %v", obj.source().ChanGroups())
 	}
+	if pv, ok := errA.(v19PrepViolation); ok {
+		return vexp.Result{Violation: what + ": preparation A: " + pv.msg, Class: pv.class}
+	}
 	errB := obj.apply(x, b)
+	if pv, ok := errB.(v19PrepViolation); ok {
+		return vexp.Result{Violation: what + ": preparation B: " + pv.msg, Class: pv.class}
+	}
 	ref := tw.fresh()
 	errF := ref.apply(x, b)
+	if pv, ok := errF.(v19PrepViolation); ok {
+		return vexp.Result{Violation: what + ": a fresh object prepared with B alone: " + pv.msg, Class: pv.class}
+	}
 	if (errB == nil) != (errF == nil) {
 		return vexp.Result{Violation: fmt.Sprintf("%s: the second preparation gives error %v, a fresh object prepared with B alone gives error %v", what, errB, errF),
 			Class: tw.kind + "-prepare-twice-differs-from-fresh"}
@@ -1019,7 +1241,7 @@ func v19LanceroTwicer() v19Twicer {
 		for _, sp := range [][2]int{{0, 0}, {maxRows, 0}, {maxRows + 3, (maxRows+3)*cards[0].ncols + 10}, {0, sum}, {maxRows - 1, 0}, {0, 1}} {
 			c := v19LanceroCfg{cards: cards, first: first, sepCols: sp[0], sepCards: sp[1]}
 			menu = append(menu, c)
-			labels = append(labels, fmt.Sprintf("[%s sepCols=%d sepCards=%d]", strings.TrimPrefix(v19LanceroCase{cards, first}.id(), "lancero/"), sp[0], sp[1]))
+			labels = append(labels, fmt.Sprintf("[%s sepCols=%d sepCards=%d]", strings.TrimPrefix(v19LanceroCase{cards: cards, first: first}.id(), "lancero/"), sp[0], sp[1]))
 		}
 	}
 	return v19Twicer{kind: "lancero", menu: labels, fresh: func() v19Prep {
@@ -1028,6 +1250,50 @@ func v19LanceroTwicer() v19Twicer {
 		ls.sampleRate = 1000
 		ls.samplePeriod = vPeriod
 		return &v19LanceroPrep{ls: ls, menu: menu}
+	}}
+}
+
+// Lancero, sampled: every preparation is the real Configure + Sample (scripted cards) + PrepareChannels
+
+type v19LanceroSampledPrep struct {
+	ls   *LanceroSource
+	menu []v19LanceroCfg
+}
+
+func (p *v19LanceroSampledPrep) source() *AnySource { return &p.ls.AnySource }
+func (p *v19LanceroSampledPrep) apply(x *vexp.X, cfg int) error {
+	c := p.menu[cfg]
+	if _, err := v19SampledStart(x, p.ls, c.cards, c.first, c.sepCols, c.sepCards); err != nil {
+		return err
+	}
+	x.Steps++
+	return v19SampledPrepareChannels(p.ls, v19StreamsOf(c.cards))
+}
+func (p *v19LanceroSampledPrep) truth(cfg int) []v19Truth {
+	return (&v19LanceroPrep{menu: p.menu}).truth(cfg)
+}
+
+func v19LanceroSampledTwicer() v19Twicer {
+	var menu []v19LanceroCfg
+	var labels []string
+	for gi, cards := range [][]v19Card{{{0, 1, 2}}, {{0, 2, 3}}, {{0, 1, 2}, {1, 2, 2}}, {{1, 2, 3}, {3, 1, 3}}, {{2, 2, 2}, {0, 1, 2}, {1, 3, 2}}} {
+		maxCols := 0
+		for _, c := range cards {
+			if c.ncols > maxCols {
+				maxCols = c.ncols
+			}
+		}
+		rows := cards[0].nrows
+		first := []int{0, 1, 7, 0, 1}[gi]
+		// (ChanSepColumns, ChanSepCards): sequential, both separated
+		for _, sp := range [][2]int{{0, 0}, {rows + 3, (rows+3)*maxCols + 10}} {
+			c := v19LanceroCfg{cards: cards, first: first, sepCols: sp[0], sepCards: sp[1]}
+			menu = append(menu, c)
+			labels = append(labels, fmt.Sprintf("[%s sepCols=%d sepCards=%d]", strings.TrimPrefix(v19LanceroCase{cards: cards, first: first}.id(), "lancero/"), sp[0], sp[1]))
+		}
+	}
+	return v19Twicer{kind: "lancero-sampled", menu: labels, fresh: func() v19Prep {
+		return &v19LanceroSampledPrep{ls: v19SampledSource([]int{0, 1, 2, 3}), menu: menu}
 	}}
 }
 
@@ -1222,6 +1488,21 @@ func v19SimpleTwicer(kind string) v19Twicer {
 
 // ---------------------------------------------------------------------------------------------
 
+// v19Tuples lists every way to give n cards 1..max columns each.
+func v19Tuples(n, max int) [][]int {
+	out := [][]int{{}}
+	for k := 0; k < n; k++ {
+		var next [][]int
+		for _, t := range out {
+			for c := 1; c <= max; c++ {
+				next = append(next, append(append([]int{}, t...), c))
+			}
+		}
+		out = next
+	}
+	return out
+}
+
 func TestVerifC19(t *testing.T) {
 	r := vexp.NewRunner("C19")
 	defer r.Finish()
@@ -1232,11 +1513,15 @@ func TestVerifC19(t *testing.T) {
 	maxCols, maxRows := 3, 4
 	firsts := []int{0, 1, 7}
 	lanceroFiles, abacoFiles, twiceFiles := 12, 6, 8
+	sampDevsets := [][]int{{0}, {0, 1}, {1, 3}, {1, 0}, {0, 1, 2}}
+	sampMaxCols, sampRows := 3, []int{2, 3}
 	if thorough {
 		devsets = append(devsets, []int{2}, []int{0, 1, 2})
 		maxCols, maxRows = 4, 5
 		firsts = append(firsts, 100)
 		lanceroFiles, abacoFiles, twiceFiles = 24, 12, 20
+		sampDevsets = append(sampDevsets, []int{2}, []int{2, 0, 1})
+		sampMaxCols, sampRows = 4, []int{2, 3, 4, 5}
 	}
 	// B. Abaco
 	var gtypes []GroupIndex
@@ -1253,15 +1538,20 @@ func TestVerifC19(t *testing.T) {
 		}
 	}
 	r.SetBound(fmt.Sprintf("Lancero: active device lists %v x 1..%d columns x 1..%d rows (equal on all cards, plus card k with 2+k rows) x FirstRow %v x ChanSepColumns {-1,0,R-1,R,R+3} x ChanSepCards {-1,0,span-1,span,span+10}, "+
-		"files for accepted configurations with <= %d streams; Abaco: every set of 1..3 distinct groups out of %d (Firstchan,Nchan) types (adjacent, gapped, overlapping, nested), both arrival orders of pairs, "+
+		"files for accepted configurations with <= %d streams; "+
+		"Lancero sampled (stream count and per-card geometry from the real Configure + Sample on scripted cards): active device lists %v x every assignment of 1..%d columns to each card (lists of 3+ cards in quick: [2 1 3] [1 1 2] [3 2 2]) "+
+		"x rows %v (all cards; = sequence length in cringeGlobals) x the same FirstRow / ChanSepColumns / ChanSepCards values, LJH22+LJH3+OFF files for accepted configurations within the same stream limit, "+
+		"plus 4 card sets that Sample rejects (one row; a card streaming another number of rows than the sequence length); Abaco: every set of 1..3 distinct groups out of %d (Firstchan,Nchan) types (adjacent, gapped, overlapping, nested), both arrival orders of pairs, "+
 		"one producer or two, files for accepted layouts with <= %d streams; generic/Triangle/SimPulse/Roach sources with 1..4 channels with files; "+
 		"files = every non-empty subset of {LJH22, LJH3, OFF} as the START's file types, one tagged record per stream, STOP; OFF with projectors on all streams, the OFF-only START also with projectors "+
 		"on the odd-indexed (Lancero: feedback) or the even-indexed (Lancero: error) streams only; "+
 		"prepared twice (same source object prepared for A, optionally PrepareRun, no Stop, prepared for B; compared with a fresh object prepared for B, all single-preparation oracles, LJH22+LJH3+OFF files with projectors on all streams for <= %d streams): "+
 		"every ordered pair out of Lancero 4 geometries (1 card 1x2, 1 card 2x3, 2 cards 1x2, cards 1 and 3 with 2x2 and 2x3) x 6 separation settings (4 accepted, 2 rejected), "+
+		"Lancero sampled (every preparation = real Configure + Sample + PrepareChannels on the same source, device and card objects) 5 card sets (0:1x2; 0:2x3; 0:1x2,1:2x2; 1:2x3,3:1x3; 2:2x2,0:1x2,1:3x2) x 2 separation settings, "+
 		"9 Abaco layouts (1..3 groups, one or two producers, one overlapping), generic/Triangle/SimPulse 1..4 channels, Roach device lists [1] [2] [3] [4] [1 2] [2 2] [3 1]",
-		devsets, maxCols, maxRows, firsts, lanceroFiles, len(gtypes), abacoFiles, twiceFiles))
-	r.Note("RoachSource is prepared with nchan set directly (its Sample needs a UDP socket); Lancero geometry is set directly (sampleCard needs hardware)")
+		devsets, maxCols, maxRows, firsts, lanceroFiles, sampDevsets, sampMaxCols, sampRows, len(gtypes), abacoFiles, twiceFiles))
+	r.Note("RoachSource is prepared with nchan set directly (its Sample needs a UDP socket); Lancero geometry is set directly (family A, twice/lancero) or found by the real Sample/sampleCard in the streams of scripted cards (lancero-sampled, twice/lancero-sampled)")
+	r.Note("lancero-sampled: sampleCard measures its 200 ms on the card's time stamps; the scripted cards stream 5 frames at 20 frames/s of card time in three driver reads; multi-card Lancero cannot run (the reader panics 'not yet implemented'), identity is checked after PrepareRun as in family A")
 	r.Note("prepared-twice Roach: active devices are RoachDevice values with nchan set and RoachSource.nchan their sum, as Sample computes it; a Lancero source prepared twice keeps the subframe divisions of its first preparation (counted, not part of C19)")
 
 	for _, devs := range devsets {
@@ -1283,6 +1573,31 @@ func TestVerifC19(t *testing.T) {
 				}
 			}
 		}
+	}
+
+	// E. Lancero through the real Configure and Sample on scripted cards: every card has its own number of columns
+	for _, devs := range sampDevsets {
+		tuples := v19Tuples(len(devs), sampMaxCols)
+		if len(devs) >= 3 && !thorough {
+			tuples = [][]int{{2, 1, 3}, {1, 1, 2}, {3, 2, 2}}
+		}
+		for _, cols := range tuples {
+			for _, nrows := range sampRows {
+				for _, first := range firsts {
+					lc := v19LanceroCase{first: first, sampled: true}
+					for k, d := range devs {
+						lc.cards = append(lc.cards, v19Card{devnum: d, ncols: cols[k], nrows: nrows})
+					}
+					r.DFS(lc.id(), -1, v19LanceroBody(r, lc, lanceroFiles))
+				}
+			}
+		}
+	}
+	// ... and what the real Sample does not accept: one row (frames cannot be told apart), a card that streams
+	// another number of rows than the sequence length Configure took from cringeGlobals (= the rows of the first card)
+	for _, cards := range [][]v19Card{{{0, 2, 1}}, {{0, 1, 1}, {1, 2, 1}}, {{0, 2, 2}, {1, 1, 3}}, {{1, 1, 3}, {0, 2, 2}}} {
+		lc := v19LanceroCase{first: 1, sampled: true, cards: cards}
+		r.DFS(lc.id(), -1, v19LanceroBody(r, lc, lanceroFiles))
 	}
 
 	for i := range gtypes {
@@ -1320,7 +1635,7 @@ func TestVerifC19(t *testing.T) {
 	}
 
 	// D. prepared twice, every ordered pair (A, B) of each menu
-	twicers := []v19Twicer{v19LanceroTwicer(), v19AbacoTwicer()}
+	twicers := []v19Twicer{v19LanceroTwicer(), v19LanceroSampledTwicer(), v19AbacoTwicer()}
 	for _, kind := range []string{"any", "triangle", "simpulse", "roach"} {
 		twicers = append(twicers, v19SimpleTwicer(kind))
 	}
